@@ -73,9 +73,26 @@ pub fn one_net(b: u64, spec: &NetSpec, lookups: bool) -> Value {
     // every node looks a random target up: which servers did it query
     let mut lks = vec![];
     if lookups {
+        if b % 2 == 1 {
+            // (odd behaviours: FIRST of all, while the early joiners still know only the nodes they met when they joined)
+            // an info_hash that HAS peers: the first node announces itself, then every node looks the info_hash up - an
+            // answer that carries values also carries closer nodes, and the lookup goes on through them
+            let swarm = rng.id();
+            let announcer = all[0];
+            let mut put = net.sim.call_put(announcer, dht::verif::PutRequestSpecific::AnnouncePeer(dht::verif::AnnouncePeerRequestArguments { info_hash: dht::Id::from(swarm), port: 5151, implied_port: None }), None, "ann");
+            net.sim.poke(announcer);
+            net.sim.run_calls(&mut [&mut put], 60_000);
+            for &n in &all {
+                let (call, log0) = do_lookup(&mut net, n, GetKind::Peers, swarm, "swarm");
+                let tr = lookup_trace(&net.sim, n, &swarm, log0, call.done_ns().unwrap_or(net.sim.now_ns()));
+                let sv: Vec<std::net::SocketAddrV4> = net.servers.iter().filter(|&&x| net.sim.nodes[x].alive).map(|&x| net.sim.nodes[x].addr).collect();
+                lks.push(json!({"n":n,"done":call.done(),"queried":tr.queried.iter().map(|a| a.to_string()).collect::<Vec<_>>(),"swarm":true,"items":call.items.len(),
+                    "missed_ids_listed": shadowed(&tr, &sv, net.sim.nodes[n].addr)}));
+            }
+        }
         // every node first looks the late joiner up BY ITS ID (the way one finds a particular server) - before it has had any
         // other occasion to hear of it: the joiner must be queried like any other server
-        if let Some(late_id) = net.sim.snapshot(late).map(|s| id_of_hex(&s.id)) {
+        if let Some(late_id) = net.sim.snapshot(late).map(|s| id_of_hex(&s.id)).filter(|_| b % 2 == 0) {
             for (i, &n) in all.iter().enumerate() {
                 if n == late {
                     continue;
@@ -102,19 +119,21 @@ pub fn one_net(b: u64, spec: &NetSpec, lookups: bool) -> Value {
                 "missed_ids_listed": shadowed(&tr, &sv, net.sim.nodes[n].addr)}));
         }
 
-        // the same for an info_hash that HAS peers: the first node announces itself, then every node looks the info_hash up - an
-        // answer that carries values also carries closer nodes, and the lookup goes on through them
-        let swarm = rng.id();
-        let announcer = all[0];
-        let mut put = net.sim.call_put(announcer, dht::verif::PutRequestSpecific::AnnouncePeer(dht::verif::AnnouncePeerRequestArguments { info_hash: dht::Id::from(swarm), port: 5151, implied_port: None }), None, "ann");
-        net.sim.poke(announcer);
-        net.sim.run_calls(&mut [&mut put], 60_000);
-        for &n in &all {
-            let (call, log0) = do_lookup(&mut net, n, GetKind::Peers, swarm, "swarm");
-            let tr = lookup_trace(&net.sim, n, &swarm, log0, call.done_ns().unwrap_or(net.sim.now_ns()));
-            let sv: Vec<std::net::SocketAddrV4> = net.servers.iter().filter(|&&x| net.sim.nodes[x].alive).map(|&x| net.sim.nodes[x].addr).collect();
-            lks.push(json!({"n":n,"done":call.done(),"queried":tr.queried.iter().map(|a| a.to_string()).collect::<Vec<_>>(),"swarm":true,"items":call.items.len(),
-                "missed_ids_listed": shadowed(&tr, &sv, net.sim.nodes[n].addr)}));
+        if b % 2 == 0 {
+            // the same for an info_hash that HAS peers: the first node announces itself, then every node looks the info_hash up - an
+            // answer that carries values also carries closer nodes, and the lookup goes on through them
+            let swarm = rng.id();
+            let announcer = all[0];
+            let mut put = net.sim.call_put(announcer, dht::verif::PutRequestSpecific::AnnouncePeer(dht::verif::AnnouncePeerRequestArguments { info_hash: dht::Id::from(swarm), port: 5151, implied_port: None }), None, "ann");
+            net.sim.poke(announcer);
+            net.sim.run_calls(&mut [&mut put], 60_000);
+            for &n in &all {
+                let (call, log0) = do_lookup(&mut net, n, GetKind::Peers, swarm, "swarm");
+                let tr = lookup_trace(&net.sim, n, &swarm, log0, call.done_ns().unwrap_or(net.sim.now_ns()));
+                let sv: Vec<std::net::SocketAddrV4> = net.servers.iter().filter(|&&x| net.sim.nodes[x].alive).map(|&x| net.sim.nodes[x].addr).collect();
+                lks.push(json!({"n":n,"done":call.done(),"queried":tr.queried.iter().map(|a| a.to_string()).collect::<Vec<_>>(),"swarm":true,"items":call.items.len(),
+                    "missed_ids_listed": shadowed(&tr, &sv, net.sim.nodes[n].addr)}));
+            }
         }
     }
     // the tables again once every node has used the network (its lookup collected address votes: on public plans this is
